@@ -8,7 +8,7 @@ sys.path.insert(0, os.path.join(os.path.dirname(os.path.dirname(os.path.abspath(
 import props as PR
 ROOT = os.path.dirname(os.path.dirname(os.path.abspath(__file__)))
 PARTS = {"counters": "Counters.v", "handles": "HandlesGen.v", "adopt": "AdoptGen.v", "links": "LinksGen.v",
-         "cycle": "CycleGen.v", "drop": "DropGen.v", "purge": "PurgeGen.v", "bust": "BustGen.v", "effects": "EffectsGen.v"}
+         "cycle": "CycleGen.v", "drop": "DropGen.v", "purge": "PurgeGen.v", "bust": "BustGen.v", "rawptr": "RawPtrGen.v", "effects": "EffectsGen.v"}
 wt = "/tmp/wt_tvs"
 subprocess.run(["git", "-C", "/repo", "worktree", "remove", "--force", wt], capture_output=True)
 subprocess.run(["git", "-C", "/repo", "worktree", "add", "--detach", wt, "HEAD"], capture_output=True, check=True)
